@@ -66,6 +66,13 @@ fn framed_actions() -> Vec<Action> {
     ]
 }
 
+fn has_clear(a: &Action) -> bool {
+    match a {
+        Action::Printf(f) | Action::FPrintf(_, f) => f.iter().any(|e| matches!(e, Fmt::Special(Special::Clear))),
+        _ => false,
+    }
+}
+
 fn chain(items: &[Action]) -> Expr {
     let mut it = items.iter().cloned().map(Expr::Action);
     let mut acc = it.next().unwrap();
@@ -382,6 +389,9 @@ struct Case {
     deep: usize,
     /// join the actions with `,` (after a leading test) instead of `-a`
     comma: bool,
+    /// every action sits in an explicit grouping node of its own (built through the public
+    /// types; the parser never leaves one): the choice of plain / framed output must see through it
+    grouped: bool,
 }
 
 fn case_tree(c: &Case) -> Expr {
@@ -392,6 +402,8 @@ fn case_tree(c: &Case) -> Expr {
             if c.guarded {
                 // "( -name <own path> -a action )": the pattern is the same text in every clause
                 Expr::or(Expr::and(Expr::Test(Test::Name("p*".into())), Expr::Action(a.clone())), Expr::Test(Test::True))
+            } else if c.grouped {
+                Expr::prec(Expr::Action(a.clone()))
             } else {
                 Expr::Action(a.clone())
             }
@@ -426,7 +438,9 @@ fn show(items: &[Action]) -> String {
 }
 
 fn show_case(c: &Case) -> String {
-    if c.comma {
+    if c.grouped {
+        format!("[every action in a grouping node of its own] {}", show(&c.items))
+    } else if c.comma {
         format!("[clauses joined by ',' after -true] {}", show(&c.items))
     } else if c.deep > 0 {
         format!("[first action under {} operator levels] {}", c.deep, show(&c.items))
@@ -438,11 +452,16 @@ fn show_case(c: &Case) -> String {
 }
 
 fn check(case: &Case, acc: &mut Acc) {
-    let wit = || json!({"kind": "c16", "actions": case.items, "threads": case.threads, "prefix": case.prefix, "guarded": case.guarded, "deep": case.deep, "comma": case.comma});
+    let wit = || json!({"kind": "c16", "actions": case.items, "threads": case.threads, "prefix": case.prefix, "guarded": case.guarded, "deep": case.deep, "comma": case.comma, "grouped": case.grouped});
     let tree = case_tree(case);
     let real = conv::expr_to_real(&tree).unwrap();
     let (text, io) = match compile_render(&real, &subject::options(false, None), "/dev") {
         C::Ok(v) => v,
+        C::Err(_) if case.items.iter().any(has_clear) => {
+            // `\c` is one of the constructs the target may refuse (C12): nothing is emitted, nothing can tear
+            acc.count("refused_clear_formats", 1);
+            return;
+        }
         C::Err(e) => {
             acc.violate(Violation::new("C16:compile-refused", format!("{}: {e}", show_case(case)), wit()));
             return;
@@ -708,6 +727,19 @@ fn cases(tier: Tier) -> Vec<Case> {
         progs.push(vec![Action::Printf(vec![Fmt::Field(Field::Name), last]), Action::Print]);
     }
     progs.push(vec![Action::Printf(vec![Fmt::Field(Field::Name), nl(), nl()])]);
+    // `\c` ends the output of its format: what decides between plain and framed output is what
+    // is written, not how the format happens to end (a target that refuses `\c` is safe)
+    for f in [
+        vec![Fmt::Field(Field::Name), Fmt::Special(Special::Clear), nl()],
+        vec![Fmt::Field(Field::Name), Fmt::Special(Special::Clear)],
+        vec![Fmt::Field(Field::Name), nl(), Fmt::Special(Special::Clear)],
+        vec![Fmt::Field(Field::Name), nl(), Fmt::Special(Special::Clear), Fmt::Field(Field::Name)],
+        vec![Fmt::Special(Special::Clear), Fmt::Field(Field::Name), nl()],
+    ] {
+        progs.push(vec![Action::Printf(f.clone())]);
+        progs.push(vec![Action::Print, Action::Printf(f.clone())]);
+        progs.push(vec![Action::FPrintf("g".into(), f.clone()), Action::Print]);
+    }
     progs.push(vec![Action::Printf(vec![Fmt::Field(Field::Name), nl(), nl()]), Action::Print0]);
     // longer plain chains (a third and fourth print action on the same port): model only
     let pa = plain_actions();
@@ -744,13 +776,19 @@ fn cases(tier: Tier) -> Vec<Case> {
                 (Tier::Thorough, 3, 1) => true,
                 _ => false,
             };
-            out.push(Case { items: p.clone(), threads, shuttle, prefix: 0, guarded: false, deep: 0, comma: false });
+            out.push(Case { items: p.clone(), threads, shuttle, prefix: 0, guarded: false, deep: 0, comma: false, grouped: false });
+        }
+    }
+    // the same one- and two-action programs with every action in a grouping node of its own
+    for p in &progs {
+        if p.len() <= 2 {
+            out.push(Case { items: p.clone(), threads: 2, shuttle: false, prefix: 0, guarded: false, deep: 0, comma: false, grouped: true });
         }
     }
     // the same one- and two-action programs with the clauses joined by ',' (model only)
     for p in &progs {
         if p.len() <= 2 {
-            out.push(Case { items: p.clone(), threads: 2, shuttle: false, prefix: 0, guarded: false, deep: 0, comma: true });
+            out.push(Case { items: p.clone(), threads: 2, shuttle: false, prefix: 0, guarded: false, deep: 0, comma: true, grouped: false });
         }
     }
     // larger identifier numbers and repeated patterns (model only)
@@ -761,10 +799,10 @@ fn cases(tier: Tier) -> Vec<Case> {
                 continue;
             }
             for (a, b) in [(0usize, 1usize), (1, 2), (1, 0), (2, 3), (4, 1)] {
-                out.push(Case { items: vec![fa[a].clone(), fa[b].clone()], threads: 2, shuttle: false, prefix, guarded, deep: 0, comma: false });
+                out.push(Case { items: vec![fa[a].clone(), fa[b].clone()], threads: 2, shuttle: false, prefix, guarded, deep: 0, comma: false, grouped: false });
             }
             let pa = plain_actions();
-            out.push(Case { items: vec![pa[0].clone(), pa[1].clone()], threads: 2, shuttle: false, prefix, guarded, deep: 0, comma: false });
+            out.push(Case { items: vec![pa[0].clone(), pa[1].clone()], threads: 2, shuttle: false, prefix, guarded, deep: 0, comma: false, grouped: false });
         }
     }
     out
@@ -778,9 +816,9 @@ pub fn deep_family() -> Acc {
     let mut deep_cases = vec![];
     for deep in [4095usize, 4096, 4097, 5000] {
         for first in [unterminated.clone(), fa[0].clone(), fa[1].clone()] {
-            deep_cases.push(Case { items: vec![first, pa[0].clone()], threads: 2, shuttle: false, prefix: 0, guarded: false, deep, comma: false });
+            deep_cases.push(Case { items: vec![first, pa[0].clone()], threads: 2, shuttle: false, prefix: 0, guarded: false, deep, comma: false, grouped: false });
         }
-        deep_cases.push(Case { items: vec![pa[0].clone(), pa[1].clone()], threads: 2, shuttle: false, prefix: 0, guarded: false, deep, comma: false });
+        deep_cases.push(Case { items: vec![pa[0].clone(), pa[1].clone()], threads: 2, shuttle: false, prefix: 0, guarded: false, deep, comma: false, grouped: false });
     }
     let n = deep_cases.len();
     speclib::trees::on_big_stack(move || {
@@ -848,7 +886,7 @@ pub fn replay(w: &Value) -> Vec<Violation> {
         let threads = w["threads"].as_u64().unwrap_or(2) as usize;
         let prefix = w["prefix"].as_u64().unwrap_or(0) as usize;
         let guarded = w["guarded"].as_bool().unwrap_or(false);
-        let c = Case { shuttle: prefix == 0 && !guarded && (threads * items.len() <= 3 || (threads == 2 && items.len() == 2)), items, threads, prefix, guarded, deep: w["deep"].as_u64().unwrap_or(0) as usize, comma: w["comma"].as_bool().unwrap_or(false) };
+        let c = Case { shuttle: prefix == 0 && !guarded && (threads * items.len() <= 3 || (threads == 2 && items.len() == 2)), items, threads, prefix, guarded, deep: w["deep"].as_u64().unwrap_or(0) as usize, comma: w["comma"].as_bool().unwrap_or(false), grouped: w["grouped"].as_bool().unwrap_or(false) };
         check(&c, &mut acc);
     }
     acc.violations.into_values().map(|(v, _)| v).collect()
